@@ -745,3 +745,197 @@ Proof.
   intros HT H HF HP. apply (exactly_one_on_service_model cf ka T0 n0 ms r HT H HP).
   exact (lost_run_nil_init _ ka T0 n0 HF).
 Qed.
+
+(* ------------------------------------------------------------------ the connection-task contract, on the trace *)
+
+(* "nothing in flight at the end" follows from a statement about the connection tasks' behaviour:
+   every OpenSubstream command a task received is LATER answered (ESubOut / ESubFail with its id) or
+   the task's connection is closed (EClosed _ c). *)
+Definition resolves (id c : N) (a : T.ev) : bool :=
+  match a with
+  | T.ESubOut i _ => i =? id
+  | T.ESubFail i => i =? id
+  | T.EClosed _ c' => c' =? c
+  | _ => false
+  end.
+
+Definition task_contract (s0 : T.st) (tr : list (N * T.ev)) : Prop :=
+  forall tr1 dt i tr2 c id,
+    tr = tr1 ++ (dt, i) :: tr2 ->
+    In (T.OCmd c id) (snd (T.step (T.final s0 tr1) dt i)) ->
+    exists dt' a, In (dt', a) tr2 /\ resolves id c a = true.
+
+Lemma pfind_unique id l k k' : NoDup (map fst l) -> T.pfind id l = Some k -> In (id, k') l -> k' = k.
+Proof.
+  induction l as [|[i k0] t IH]; cbn [T.pfind map fst]; intros ND PF Hin; [discriminate|].
+  inversion ND as [|? ? N1 N2]; subst. destruct (i =? id) eqn:E.
+  - apply N.eqb_eq in E. subst i. injection PF as ->. destruct Hin as [H|H]; [now injection H|].
+    exfalso. apply N1. apply in_map_iff. exists (id, k'). split; [reflexivity|exact H].
+  - destruct Hin as [H|H]; [injection H as -> _; rewrite N.eqb_refl in E; discriminate|]. now apply IH.
+Qed.
+
+Lemma pfind_in id l k : T.pfind id l = Some k -> In (id, k) l.
+Proof.
+  induction l as [|[i k0] t IH]; cbn [T.pfind]; [discriminate|]. destruct (i =? id) eqn:E.
+  - intros H. injection H as ->. apply N.eqb_eq in E. subst. now left.
+  - intros H. right. now apply IH.
+Qed.
+
+(* one step: the open stays in flight with the same key, or its id is gone from the books *)
+Lemma step_stays_or_gone s dt e id k :
+  TA.pend_inv s -> TP.nowrap1 s e -> T.pfind id (T.s_pend s) = Some k ->
+  T.pfind id (T.s_pend (fst (T.step s dt e))) = Some k \/ ~ In id (TA.pend_ids (fst (T.step s dt e))).
+Proof.
+  intros P NW PF. destruct (TA.step_inflight s dt e id k PF) as [H|[H|[p ->]]]; [now left| |].
+  - right. destruct (TA.step_ans s dt e P NW) as (_ & _ & A & _). exact (proj2 (A id H)).
+  - right. unfold TA.pend_ids. rewrite step_pend. cbn [T.handle_ev]. unfold T.on_closed. TP.st_simpl.
+    assert (G : ~ In id (map fst (filter (fun e : N * T.key => negb (snd (snd e) =? snd k)) (T.s_pend s)))).
+    { intros C. apply in_map_iff in C. destruct C as ([i k'] & E & Hin). cbn [fst] in E. subst i.
+      apply filter_In in Hin. destruct Hin as [Hin Hc]. cbn [snd] in Hc.
+      rewrite (pfind_unique id _ k k' (proj1 P) PF Hin) in Hc. rewrite N.eqb_refl in Hc. discriminate. }
+    repeat match goal with |- context [match ?x with _ => _ end] => destruct x end; cbn [fst]; TP.st_simpl; exact G.
+Qed.
+
+Lemma step_resolved_gone s dt e id k :
+  TA.pend_inv s -> TP.nowrap1 s e -> T.pfind id (T.s_pend s) = Some k -> resolves id (snd k) e = true ->
+  ~ In id (TA.pend_ids (fst (T.step s dt e))).
+Proof.
+  intros P NW PF R. destruct e; cbn [resolves] in R; try discriminate.
+  - (* EClosed p c *) apply N.eqb_eq in R. subst c.
+    unfold TA.pend_ids. rewrite step_pend. cbn [T.handle_ev]. unfold T.on_closed. TP.st_simpl.
+    assert (G : ~ In id (map fst (filter (fun e : N * T.key => negb (snd (snd e) =? snd k)) (T.s_pend s)))).
+    { intros C. apply in_map_iff in C. destruct C as ([i k'] & E & Hin). cbn [fst] in E. subst i.
+      apply filter_In in Hin. destruct Hin as [Hin Hc]. cbn [snd] in Hc.
+      rewrite (pfind_unique id _ k k' (proj1 P) PF Hin) in Hc. rewrite N.eqb_refl in Hc. discriminate. }
+    repeat match goal with |- context [match ?x with _ => _ end] => destruct x end; cbn [fst]; TP.st_simpl; exact G.
+  - apply N.eqb_eq in R. subst id0. apply TA.answer_step_clears. left. eauto.
+  - apply N.eqb_eq in R. subst id0. apply TA.answer_step_clears. now right.
+Qed.
+
+Lemma resolved_later_gone tr : forall s id k,
+  TA.pend_inv s -> TP.nowrap s tr -> T.pfind id (T.s_pend s) = Some k ->
+  (exists dt a, In (dt, a) tr /\ resolves id (snd k) a = true) ->
+  ~ In id (TA.pend_ids (T.final s tr)).
+Proof.
+  induction tr as [|[dt e] t IH]; intros s id k P NW PF (dt' & a & Hin & R); [destruct Hin|].
+  cbn [TP.nowrap] in NW. destruct NW as [NW1 NW2]. cbn [T.final].
+  destruct (TA.step_ans s dt e P NW1) as (P' & NX & _).
+  assert (L : id < T.s_next s).
+  { destruct P as [_ Q]. rewrite Forall_forall in Q. apply Q. eapply TA.pfind_ids; eauto. }
+  assert (GONE : ~ In id (TA.pend_ids (fst (T.step s dt e))) -> ~ In id (TA.pend_ids (T.final (fst (T.step s dt e)) t))).
+  { intros G. apply (TA.notin_pend_stays t _ id P' NW2); [lia|exact G]. }
+  destruct Hin as [E|Hin].
+  - injection E as <- <-. apply GONE. eapply step_resolved_gone; eauto.
+  - destruct (step_stays_or_gone s dt e id k P NW1 PF) as [H|H]; [|now apply GONE].
+    eapply IH; eauto.
+Qed.
+
+(* where an open in flight comes from: it was there, or this step issued its command *)
+Lemma step_pend_origin s dt i id p c :
+  In (id, (p, c)) (T.s_pend (fst (T.step s dt i))) ->
+  In (id, (p, c)) (T.s_pend s) \/ In (T.OCmd c id) (snd (T.step s dt i)).
+Proof.
+  rewrite step_pend. set (s0 := T.with_now s (T.s_now s + dt)).
+  assert (P0 : T.s_pend s0 = T.s_pend s) by reflexivity.
+  destruct i; cbn [T.handle_ev];
+    try solve [ unfold T.on_established, T.on_open_full;
+                repeat match goal with |- context [match ?x with _ => _ end] => destruct x end; cbn [fst]; TP.st_simpl;
+                rewrite ?TP.activity_pend; TP.st_simpl; rewrite ?TP.add_chan_pend; intros H; left; exact H ].
+  - unfold T.on_closed. TP.st_simpl.
+    repeat match goal with |- context [match ?x with _ => _ end] => destruct x end; cbn [fst]; TP.st_simpl;
+      intros H; apply filter_In in H; left; exact (proj1 H).
+  - destruct (0 <? T.strong s0 c0); cbn [fst]; [rewrite sub_opened_pend|]; intros H; left; rewrite <- P0; exact H.
+  - destruct (T.pfind id0 (T.s_pend s0)) as [[p0 c0]|]; cbn [fst]; [|intros H; left; rewrite <- P0; exact H].
+    rewrite sub_opened_pend. TP.st_simpl. intros H. unfold T.pdel in H. apply filter_In in H. left. exact (proj1 H).
+  - cbn [fst]. TP.st_simpl. intros H. unfold T.pdel in H. apply filter_In in H. left. exact (proj1 H).
+  - (* EOpen *)
+    unfold T.on_open. destruct (T.find_ctx p0 (T.s_ctxs s0)) as [cx|] eqn:F; cbn [fst];
+      [|intros H; left; rewrite <- P0; exact H].
+    destruct (T.h_act (T.c_prim cx) || (0 <? T.strong s0 (T.h_id (T.c_prim cx)))) eqn:G; cbn [fst];
+      [|intros H; left; rewrite <- P0; exact H].
+    intros H.
+    assert (H' : In (id, (p, c)) (T.s_pend s0 ++ [(T.s_next s0, (p0, T.h_id (T.c_prim cx)))])).
+    { revert H. TP.st_simpl. destruct (T.s_ka s0); TP.st_simpl; rewrite ?TP.activity_pend; TP.st_simpl; auto. }
+    apply in_app_or in H'. destruct H' as [H'|[H'|[]]]; [left; rewrite <- P0; exact H'|].
+    injection H' as <- <- <-. right. apply (handle_outs_step s dt (T.EOpen p0)). cbn [T.handle_ev]. fold s0.
+    unfold T.on_open. rewrite F, G. cbn [snd]. right. now left.
+Qed.
+
+Lemma pend_origin tr : forall s id p c,
+  In (id, (p, c)) (T.s_pend (T.final s tr)) ->
+  In (id, (p, c)) (T.s_pend s) \/
+  exists tr1 dt i tr2, tr = tr1 ++ (dt, i) :: tr2 /\ In (T.OCmd c id) (snd (T.step (T.final s tr1) dt i)).
+Proof.
+  induction tr as [|[dt i] t IH]; intros s id p c H; cbn [T.final] in H; [now left|].
+  destruct (IH _ _ _ _ H) as [H1|(tr1 & dt' & i' & tr2 & E & Ho)].
+  - destruct (step_pend_origin s dt i id p c H1) as [K|K]; [now left|].
+    right. exists [], dt, i, t. split; [reflexivity|exact K].
+  - right. exists ((dt, i) :: tr1), dt', i', tr2. split; [cbn [app]; now rewrite E|exact Ho].
+Qed.
+
+(* the connection-task contract empties the service's books *)
+Theorem contract_empties_pend s0 tr :
+  TA.pend_inv s0 -> T.s_pend s0 = [] -> TP.nowrap s0 tr -> task_contract s0 tr ->
+  T.s_pend (T.final s0 tr) = [].
+Proof.
+  intros P E0 NW TC. destruct (T.s_pend (T.final s0 tr)) as [|[id [p c]] rest] eqn:EF; [reflexivity|exfalso].
+  assert (Hin : In (id, (p, c)) (T.s_pend (T.final s0 tr))) by (rewrite EF; now left).
+  destruct (pend_origin tr s0 id p c Hin) as [H|(tr1 & dt & i & tr2 & E & Ho)]; [rewrite E0 in H; destruct H|].
+  destruct (TC tr1 dt i tr2 c id E Ho) as (dt' & a & Ha & R).
+  subst tr. apply TA.nowrap_app in NW. destruct NW as [NW1 NW2]. cbn [TP.nowrap] in NW2. destruct NW2 as [NW2 NW3].
+  pose proof (TA.pend_inv_final tr1 s0 P NW1) as P1.
+  destruct (TA.step_accept _ dt i c id P1 Ho) as [p' PF].
+  destruct (TA.step_ans _ dt i P1 NW2) as (P2 & _).
+  assert (G : ~ In id (TA.pend_ids (T.final (fst (T.step (T.final s0 tr1) dt i)) tr2))).
+  { apply (resolved_later_gone tr2 _ id (p', c) P2 NW3 PF). exists dt', a. split; [exact Ha|exact R]. }
+  apply G. rewrite TA.final_app in Hin. cbn [T.final] in Hin.
+  unfold TA.pend_ids. apply in_map_iff. exists (id, (p, c)). split; [reflexivity|exact Hin].
+Qed.
+
+(* exactly one on the service model, with the connection-task contract as a statement about the
+   tasks' behaviour instead of the service's final state *)
+Theorem exactly_one_on_service_model_contract cf ka T0 n0 ms r :
+  0 < tmo cf ->
+  jtrace cf (j0 ka T0 n0) ms ->
+  TP.nowrap (T.init ka T0 n0) (tr_of ms) ->
+  task_contract (T.init ka T0 n0) (tr_of ms) ->
+  lost_run (T.init ka T0 n0) (tr_of ms) = [] ->
+  let g := grun cf g0 (run_steps cf (init_pst, init_env) (evs_of ms)) in
+  g_dials g = [] ->
+  (forall x, In x (g_live g) -> snd x <= g_now g) ->
+  let res := run cf (init_pst, init_env) (evs_of ms) in
+  In (OSent r) (snd res) ->
+  terms r (snd res) = 1%nat \/ In r (cancel_reqs (evs_of ms)).
+Proof.
+  intros HT H NW TC. apply (exactly_one_on_service_model cf ka T0 n0 ms r HT H).
+  apply contract_empties_pend; [apply TA.pend_inv_init|reflexivity|exact NW|exact TC].
+Qed.
+
+(* the contract is decidable on a concrete history *)
+Fixpoint contract_b (s : T.st) (tr : list (N * T.ev)) : bool :=
+  match tr with
+  | [] => true
+  | (dt, i) :: t =>
+      forallb (fun o => match o with
+                        | T.OCmd c id => existsb (fun x : N * T.ev => resolves id c (snd x)) t
+                        | _ => true
+                        end) (snd (T.step s dt i))
+      && contract_b (fst (T.step s dt i)) t
+  end.
+
+Lemma contract_b_sound tr : forall s, contract_b s tr = true -> task_contract s tr.
+Proof.
+  induction tr as [|[dt0 i0] t IH]; intros s H tr1 dt i tr2 c id E Ho.
+  - destruct tr1; discriminate E.
+  - cbn [contract_b] in H. apply andb_true_iff in H. destruct H as [H1 H2].
+    destruct tr1 as [|x tr1]; cbn [app] in E.
+    + injection E as -> -> ->. cbn [T.final] in Ho. rewrite forallb_forall in H1. specialize (H1 _ Ho). cbn in H1.
+      apply existsb_exists in H1. destruct H1 as ([dt' a] & Hin & R). exists dt', a. split; [exact Hin|exact R].
+    + injection E as Ex Et. subst x t. cbn [T.final] in Ho. exact (IH _ H2 tr1 dt i tr2 c id eq_refl Ho).
+Qed.
+
+(* the contract holds in the non-vacuity example *)
+Lemma ms_ok_contract : task_contract (T.init true 1000 0) (tr_of ms_ok) /\ TP.nowrap (T.init true 1000 0) (tr_of ms_ok).
+Proof.
+  split; [apply contract_b_sound; vm_compute; reflexivity|]. vm_compute. repeat split; reflexivity.
+Qed.
